@@ -34,6 +34,8 @@ type vfMsg struct {
 	VFinal  bool   `json:"vfinal"`
 	Move    string `json:"move"`
 	Keep    bool   `json:"keep"`
+	VBal    string `json:"vbal"`
+	Order   string `json:"order"`
 }
 
 type vfCase struct {
@@ -135,6 +137,10 @@ func (v *vWorld) proposal(m vfMsg, side string, fund bool, params *channel.Param
 			imap = nil
 		case "short":
 			imap = imap[:1]
+		case "duphub":
+			imap = []channel.Index{1, 1}
+		case "duppeer":
+			imap = []channel.Index{0, 0}
 		}
 	}
 	add := func(i int, d int64) { st.Balances[0][i] = new(big.Int).Add(st.Balances[0][i], big.NewInt(d)) }
@@ -260,6 +266,12 @@ func runVirtualCase(t *testing.T, c *vfCase, proto bool, idx int) (signedA, sign
 				if m.VState == "differs" && side == "B" {
 					return 3, 1, 0
 				}
+				switch m.VBal {
+				case "azero":
+					return 0, 4, 0
+				case "bzero":
+					return 4, 0, 0
+				}
 				return 2, 2, 0
 			}
 			if m.VState == "differs" {
@@ -277,10 +289,13 @@ func runVirtualCase(t *testing.T, c *vfCase, proto bool, idx int) (signedA, sign
 		}
 		pa, pb = mk("A"), mk("B")
 		okA, okB := true, true
+		if m.Order == "ba" && (m.Arrive == "both" || m.Side == "B") {
+			okB = inject("B", pb)
+		}
 		if m.Arrive == "both" || m.Side == "A" {
 			okA = inject("A", pa)
 		}
-		if m.Arrive == "both" || m.Side == "B" {
+		if m.Order != "ba" && (m.Arrive == "both" || m.Side == "B") {
 			okB = inject("B", pb)
 		}
 		if !okA || !okB {
@@ -317,7 +332,7 @@ func TestVirtualFund(t *testing.T) {
 		if proto {
 			ser = "protobuf"
 		}
-		desc := fmt.Sprintf("%s|%s|%s|%s", c.Msg.Sit, c.Mutant, c.Msg.Side, ser)
+		desc := fmt.Sprintf("%s|%s|%s|%s|%s|%s", c.Msg.Sit, c.Mutant, c.Msg.Side, c.Msg.VBal, c.Msg.Order, ser)
 		sup.Begin(n, desc)
 		sa, sb, note := runVirtualCase(t, c, proto, n)
 		res.Add("evaluations", 1)
@@ -336,7 +351,10 @@ func TestVirtualFund(t *testing.T) {
 		}
 		if (sa || sb) && c.Expect == "must-not-sign" {
 			sig := fmt.Sprintf("countersigned|%s|%s|%s", c.Msg.Sit, c.Mutant, feature(c))
-			what := fmt.Sprintf("hub of a virtual channel, situation %q, crafted pair with defect %q = %s (on the ledger channel with %s; %s serializer): the hub countersigned the ledger channel update with A: %v, with B: %v", c.Msg.Sit, c.Mutant, feature(c), c.Msg.Side, ser, sa, sb)
+			if c.Msg.VBal != "even" && c.Msg.VBal != "" {
+				sig += "|" + c.Msg.Side + "|" + c.Msg.VBal
+			}
+			what := fmt.Sprintf("hub of a virtual channel, situation %q, crafted pair with defect %q = %s (on the ledger channel with %s; balances of the virtual channel: %s; order of arrival: %s; %s serializer): the hub countersigned the ledger channel update with A: %v, with B: %v", c.Msg.Sit, c.Mutant, feature(c), c.Msg.Side, c.Msg.VBal, c.Msg.Order, ser, sa, sb)
 			sup.Violate("C07", "monitor", sig, what, rp)
 			res.Violate("C07", "monitor", sig, what, rp)
 		}
@@ -372,6 +390,8 @@ func feature(c *vfCase) string {
 		return m.Amount
 	case "imap":
 		return m.IMap
+	case "imapmove":
+		return m.IMap + "+" + m.Move
 	case "vflag":
 		return fmt.Sprint(m.VFlag)
 	case "vlocked":
